@@ -12,7 +12,9 @@ import (
 func echKeys(ks ...*gen.KeyMat) []ech.Key {
 	var out []ech.Key
 	for _, k := range ks {
-		out = append(out, ech.Key{Config: k.Config, PrivateKey: k.PrivBytes, SendAsRetry: true})
+		// the retry-config flag says which configs a rejecting server advertises; it has no bearing on
+		// which keys open a hello, and deployments mix flagged (current) and unflagged (retired) keys
+		out = append(out, ech.Key{Config: k.Config, PrivateKey: k.PrivBytes, SendAsRetry: k.PrivBytes[0]&1 == 0})
 	}
 	return out
 }
